@@ -7,7 +7,7 @@
 (*       or one attribute value.                                                           *)
 EXTENDS Integers, Sequences, FiniteSets, TLC
 
-CONSTANTS Which, MaxLen, SmallLen, TinyLen, TailLen, AsBuilt
+CONSTANTS Which, MaxLen, SmallLen, TinyLen, TailLen, OwnTailLen, AsBuilt
 Has(f) == f \in AsBuilt
 Failed(gs) == {g[1] : g \in {x \in gs : ~x[2]}}
 SeqToSet(s) == {s[i] : i \in DOMAIN s}
@@ -15,6 +15,9 @@ SeqToSet(s) == {s[i] : i \in DOMAIN s}
 \* ------------------------------------------------------------------ C17
 Classes == {"slash", "backslash", "tab", "cr", "lf", "ctl", "host", "colon", "at", "pctslash", "dot", "qmark",
             "hash", "space", "pcttab"}
+\* a path of keymasterd's own (one segment each: "showAuthToken", "sendAuthDocument"): a destination that STARTS like a
+\* page of this server is a destination like any other
+OwnPaths == {"own_show", "own_send"}
 Control == {"tab", "cr", "lf", "ctl"}
 SafeDest(s) == /\ Len(s) >= 1 /\ s[1] = "slash"
                /\ (Len(s) >= 2 => s[2] \notin {"slash", "backslash"})
@@ -40,7 +43,9 @@ SmallSeqs == UNION {[1..k -> Small] : k \in 1..SmallLen} \cup UNION {[1..k -> Ti
 BadPaths == {<<"slash", "backslash">>, <<"slash", "backslash", "host">>, <<"slash", "backslash", "host", "slash">>,
              <<"slash", "dot", "slash", "backslash", "host">>, <<"slash", "tab", "slash", "host">>, <<"slash", "host">>}
 QueryTails == UNION {[1..k -> {"slash", "dot", "host"}] : k \in 0..TailLen}
+OwnTails == UNION {[1..k -> {"slash", "dot", "backslash", "host"}] : k \in 0..OwnTailLen} \cup {<<"slash", "host", "tab", "host">>, <<"slash", "slash", "host">>}
 InC17(r) == \/ \E s \in SeqsUpTo(MaxLen) \cup SmallSeqs : r = [handler |-> "login", dest |-> s]
+            \/ \E o \in OwnPaths, t \in OwnTails : r = [handler |-> "login", dest |-> <<"slash", o>> \o t]
             \/ \E p \in BadPaths, t \in QueryTails : r = [handler |-> "login", dest |-> p \o <<"qmark">> \o t]
             \/ \E h \in RedirectingHandlers, s \in SeqsUpTo(2) : r = [handler |-> h, dest |-> s]
             \/ \E h \in RedirectingHandlers, p \in Prefixes, t \in SeqsUpTo(1) \cup {<<>>} :
